@@ -367,6 +367,9 @@ SPECS["C15"] = dict(
         # track misc2 (claim-audit, C15 table): the checked Deref slice the drivers print
         "Woodpile.Props.C15.deref_is_view",
         "Woodpile.Props.C15.run_deref_refines_list",
+        # session 3: "after every operation" with the prefix explicit
+        "Woodpile.Props.C15.runRef_take",
+        "Woodpile.Props.C15.after_every_operation",
     ],
     families=[dict(name="sdeque", quick=3000, thorough=200000)],
     technique="Lean 4 proof (representation invariant = check_rep, per-operation refinement of a List deque, induction over "
